@@ -170,6 +170,25 @@ func (s *Store) RawRangeQuery(kStart, kEnd storage.Key, keysOnly bool, out chan 
 	return nil
 }
 
+// GetRange returns the pairs of an unversioned context with kStart <= tkey <= kEnd in ascending key order.
+func (s *Store) GetRange(ctx storage.Context, kStart, kEnd storage.TKey) ([]*storage.TKeyValue, error) {
+	if ctx == nil {
+		return nil, fmt.Errorf("nil context")
+	}
+	lo, hi := ctx.ConstructKey(kStart), ctx.ConstructKey(kEnd)
+	var out []*storage.TKeyValue
+	for _, kv := range s.Sorted() {
+		if bytes.Compare(kv.K, lo) >= 0 && bytes.Compare(kv.K, hi) <= 0 {
+			tk, err := storage.TKeyFromKey(kv.K)
+			if err != nil {
+				return nil, err
+			}
+			out = append(out, &storage.TKeyValue{K: tk, V: append([]byte{}, kv.V...)})
+		}
+	}
+	return out, nil
+}
+
 // ---- batches -------------------------------------------------------------------------------
 
 type batchOp struct {
